@@ -16,16 +16,18 @@ import (
 	"verif/harness/common"
 )
 
-const straceCalls = "openat,write,pwrite64,ftruncate,close,unlinkat,unlink,newfstatat,fstat,utimensat,read,pread64"
+// stat/read calls are left out: cache.Open alone makes several hundred of them before the Put starts
+const straceCalls = "openat,write,pwrite64,ftruncate,close,unlinkat,unlink,utimensat"
 
 // straceOnce runs a one-shot worker (open dir, one Put) under strace with the given inject
 // clause and reports whether the worker survived.
-func straceOnce(real, dir string, sc *c12Scenario, inject string) (survived bool, err error) {
+func straceOnce(real, dir string, sc *c12Scenario, call, inject string) (survived bool, err error) {
 	var in bytes.Buffer
 	enc := json.NewEncoder(&in)
 	enc.Encode(map[string]any{"cmd": "open", "dir": dir})
 	enc.Encode(map[string]any{"cmd": "put", "id": idHex(sc.ID), "data": hex.EncodeToString(sc.Data)})
-	cmd := exec.Command("strace", "-f", "-qq", "-o", "/dev/null", "-e", "trace="+straceCalls, "-e", "inject="+straceCalls+":"+inject, real)
+	// strace keeps one invocation counter per system call: one call per run
+	cmd := exec.Command("strace", "-f", "-qq", "-o", "/dev/null", "-e", "trace="+call, "-e", "inject="+call+":"+inject, real)
 	cmd.Env = append(os.Environ(), "GODEBUG=", "GOMAXPROCS=1", "VERIF_LOCKTHREAD=1")
 	cmd.Stdin = &in
 	out, err := cmd.Output()
@@ -58,51 +60,55 @@ func runC12Strace(f *common.Flags, res *common.Result, real string) {
 	lw.call(map[string]any{"cmd": "open", "dir": dir})
 	rn := &c12Runner{f: f, res: res, dir: dir, touched: map[string]bool{}}
 	scs := c12Scenarios(f.Tier)
-	n := 0
+	n, used := 0, 0
+	maxSc := 8
+	if f.Tier == "thorough" {
+		maxSc = 1000
+	}
 	for si := range scs {
 		sc := &scs[si]
-		if sc.Reader != "" || len(sc.Data) > 6000 || !sc.Undamaged {
+		if sc.Reader != "" || len(sc.Data) > 6000 || !sc.Undamaged || used >= maxSc {
 			continue
 		}
+		used++
 		for _, mode := range []string{"signal=KILL", "error=EIO"} {
-			for k := 1; k < 200; k++ {
-				rn.materialize(sc.Pre)
-				// files the Put may create
-				rn.touched[realPath(dir, "a:"+idHex(sc.ID))] = true
-				rn.touched[realPath(dir, "d:"+outHex(sc.Data))] = true
-				survived, err := straceOnce(real, dir, sc, fmt.Sprintf("%s:when=%d", mode, k))
-				if err != nil {
-					res.Notes = append(res.Notes, "strace could not run: "+err.Error())
-					return
-				}
-				lk, err := lw.call(map[string]any{"cmd": "lookups", "ids": []string{idHex(0), idHex(1), idHex(2), idHex(3)}})
-				if err != nil {
-					return
-				}
-				n++
-				res.Case(fmt.Sprintf("%s:%s:%d", sc.Name, mode, k), true)
-				res.Count("strace:" + strings.SplitN(mode, "=", 2)[1])
-				for i, l := range lk.Lookups {
-					bad := ""
-					for _, o := range l.Oracle {
-						bad = o
+			for _, call := range strings.Split(straceCalls, ",") {
+				for k := 1; k < 40; k++ {
+					rn.materialize(sc.Pre)
+					// files the Put may create
+					rn.touched[realPath(dir, "a:"+idHex(sc.ID))] = true
+					rn.touched[realPath(dir, "d:"+outHex(sc.Data))] = true
+					survived, err := straceOnce(real, dir, sc, call, fmt.Sprintf("%s:when=%d", mode, k))
+					if err != nil {
+						res.Notes = append(res.Notes, "strace could not run: "+err.Error())
+						return
 					}
-					if strings.HasPrefix(l.GetFile, "F ") {
-						if fl := strings.Fields(l.GetFile); len(fl) >= 3 && l.FileSha != fl[2] {
-							bad = "getfile-exact: GetFile names a file whose SHA-256 is not the reported OutputID"
+					lk, err := lw.call(map[string]any{"cmd": "lookups", "ids": []string{idHex(0), idHex(1), idHex(2), idHex(3)}})
+					if err != nil {
+						return
+					}
+					n++
+					res.Case(fmt.Sprintf("%s:%s:%s:%d", sc.Name, mode, call, k), true)
+					res.Count("strace:" + strings.SplitN(mode, "=", 2)[1])
+					for i, l := range lk.Lookups {
+						bad := ""
+						for _, o := range l.Oracle {
+							bad = o
+						}
+						if strings.HasPrefix(l.GetFile, "F ") {
+							if fl := strings.Fields(l.GetFile); len(fl) >= 3 && l.FileSha != fl[2] {
+								bad = "getfile-exact: GetFile names a file whose SHA-256 is not the reported OutputID"
+							}
+						}
+						if bad != "" {
+							res.Violate(common.Violation{Kind: "impl-violation", Oracle: strings.SplitN(bad, ":", 2)[0],
+								Input:  map[string]string{"scenario": sc.Name, "strace_inject": fmt.Sprintf("%s:%s:when=%d", call, mode, k), "id": fmt.Sprint(i)},
+								Detail: bad, Key: fmt.Sprintf("c12s:%s:%s:%s:%d", sc.Name, mode, call, k)})
 						}
 					}
-					if bad != "" {
-						res.Violate(common.Violation{Kind: "impl-violation", Oracle: strings.SplitN(bad, ":", 2)[0],
-							Input:  map[string]string{"scenario": sc.Name, "strace_inject": fmt.Sprintf("%s:when=%d", mode, k), "id": fmt.Sprint(i)},
-							Detail: bad, Key: fmt.Sprintf("c12s:%s:%s:%d", sc.Name, mode, k)})
+					if survived && (mode == "signal=KILL" || k > 12) {
+						break // k is beyond the last such system call of the run
 					}
-				}
-				if survived && mode == "signal=KILL" {
-					break // k is beyond the last system call of the run
-				}
-				if survived && k > 60 {
-					break
 				}
 			}
 		}
